@@ -194,12 +194,25 @@ fn apply_corruption(prep: &Prepared, corr: &Corr) -> (Vec<u8>, Option<Fired>) {
             let old = data[at];
             // 0xff is never valid UTF-8; the other replacements keep the text valid UTF-8 but (usually) break its
             // syntax: an unterminated string, an unbalanced brace, a dangling attribute or escape.
-            let new_byte = [0xffu8, b'"', b'{', b'(', 0xff, b'@', b'\\', b'}'][(corr.bit % 8) as usize];
-            data[at] = new_byte;
+            let new_byte = [0xffu8, b'"', b'{', b'(', b'%', b'@', b'\\', b'}'][(corr.bit % 8) as usize];
+            let desc = if corr.bit >= 8 && len >= 2 {
+                // The whole body replaced (same length, lengths intact) by a text the Recon parser stops reading before
+                // its end: a blob whose base64 text is not a whole number of groups of four / a dangling `0x`.
+                let text: Vec<u8> = if (len - 1) % 4 != 0 && corr.bit % 2 == 0 {
+                    std::iter::once(b'%').chain(std::iter::repeat(b'Q').take(len - 1)).collect()
+                } else {
+                    std::iter::repeat(b' ').take(len - 2).chain(*b"0x").collect()
+                };
+                data[off..off + len].copy_from_slice(&text);
+                format!("frame {frame}: body {off}..{} replaced by {:?}", off + len, String::from_utf8_lossy(&text))
+            } else {
+                data[at] = new_byte;
+                format!("frame {frame}: body byte at {at} {:#04x} -> {:#04x} (body {off}..{})", old, new_byte, off + len)
+            };
             let fired = Fired {
                 kind: "body_garbage",
                 frame,
-                desc: format!("frame {frame}: body byte at {at} {:#04x} -> {:#04x} (body {off}..{})", old, new_byte, off + len),
+                desc,
                 bad_tag: false,
                 short: false,
                 clean_cut: false,
